@@ -49,6 +49,25 @@ pub fn run(op: &str, v: &Value) -> Value {
                 },
             }
         }
+        "discover" => {
+            let src = str_field(v, "source");
+            match wac_parser::Document::parse(&src) {
+                Err(e) => json!({"parse_error": format!("{e:?}")}),
+                Ok(doc) => match wac_resolver::packages(&doc) {
+                    Err(e) => json!({"error": format!("{e:?}")}),
+                    Ok(keys) => {
+                        let ks: Vec<String> = keys
+                            .keys()
+                            .map(|k| match k.version {
+                                Some(v) => format!("{}@{}", k.name, v),
+                                None => k.name.to_string(),
+                            })
+                            .collect();
+                        json!({"packages": ks})
+                    }
+                },
+            }
+        }
         _ => unreachable!(),
     }
 }
